@@ -269,8 +269,8 @@ func c11Worker(args []string) int {
 					if i >= len(prefix) {
 						for alt := 1; alt < len(p.Enabled); alt++ {
 							cost := pre
-							if p.RunningStillEnabled || sc.quietGate {
-								cost++ // quiet-gate scenarios bound deviations: every departure from the default choice counts
+							if p.RunningStillEnabled || sc.quietGate || sc.devBound {
+								cost++ // these scenarios bound deviations: every departure from the default choice counts
 							}
 							if cost > bound {
 								continue
@@ -285,7 +285,7 @@ func c11Worker(args []string) int {
 							rec(append(append([]int{}, choices[:i]...), alt))
 						}
 					}
-					if p.Choice != 0 && (p.RunningStillEnabled || sc.quietGate) {
+					if p.Choice != 0 && (p.RunningStillEnabled || sc.quietGate || sc.devBound) {
 						pre++
 					}
 				}
